@@ -124,4 +124,6 @@ func Gen(run *vlib.Run, seed uint64, tier string) {
 	genEncoding(run, r.Fork("encoding"), tier)
 	genFDSelect(run, r.Fork("fdselect"), tier)
 	genReal(run, r.Fork("real"), tier)
+	genFonts(run, r.Fork("fonts"), tier)
+	genAlloc(run, r.Fork("alloc"), tier)
 }
